@@ -413,6 +413,20 @@ def check_aggregator_state_keys(check, repo: Repo, aggs, rule: str = 'R-KEY.K3')
         continue
       for s in ff.expand(rv.elts[1]):
         if not isinstance(s, ast.Call):
+          if state_param is not None and ff.param_of(s) == state_param:
+            # state returned unchanged: fine only for a state without a key
+            continue
+          continue
+        if isinstance(s.func, ast.Attribute) and s.func.attr == 'replace' and ff.param_of(s.func.value) == state_param:
+          kw = {k.arg: k.value for k in s.keywords}
+          n += 1
+          if 'rng' not in kw:
+            check.ob(rule, fi, f'{txt(s)[:60]}', False,
+                     'the next state is the previous one with only some fields replaced: the previous random key is carried over, '
+                     'so every round quantizes with the same randomness', node=s)
+          else:
+            ok, why = _is_split_descendant(ff, kw['rng'], state_param, 'rng')
+            check.ob(rule, fi, f'replace(rng={txt(kw["rng"])})', ok, why, node=s)
           continue
         r = ff.callee(s)
         if r.kind != 'class':
